@@ -626,10 +626,10 @@ func NewWorld(c *Case) (*World, error) {
 	if c.Universe {
 		// the by-value type has no Resolver twin and no identity an AnyResolver could recognise it by
 		for _, n := range g.Nodes {
-			if n.Type != "" && strings.TrimPrefix(c.GoType[n.Type], "R") == "Vee" {
+			if n.Type != "" && strings.TrimPrefix(strings.TrimPrefix(c.GoType[n.Type], "R"), "M") == "Vee" {
 				c.GoType[n.Type] = "Vee"
 				switch c.Assign[n.ID] {
-				case "UR":
+				case "UR", "UM":
 					// (with a root resolver installed an unknown Go value would be its business, not reflection's)
 					c.Assign[n.ID] = "X"
 					if c.AnyInstalled {
@@ -650,6 +650,8 @@ func NewWorld(c *Case) (*World, error) {
 			w.anodes[n.ID] = &ANode{id: n.ID}
 		case "UR":
 			w.structs[n.ID] = w.newUniverseResolver(c.GoType[n.Type], n.ID)
+		case "UM":
+			w.structs[n.ID] = w.newUniverseMap(c.GoType[n.Type], n.ID)
 		case "X", "AX":
 			if c.Universe && n.Type != "" {
 				pv := newUniverseValue(c.GoType[n.Type], c.Assign[n.ID] == "RX")
@@ -677,7 +679,7 @@ func NewWorld(c *Case) (*World, error) {
 	// phase 2: fill structs
 	for _, n := range g.Nodes {
 		pv, ok := w.structs[n.ID]
-		if !ok || c.Assign[n.ID] == "UR" {
+		if !ok || c.Assign[n.ID] == "UR" || c.Assign[n.ID] == "UM" {
 			continue
 		}
 		sv := pv.Elem()
@@ -709,7 +711,7 @@ func NewWorld(c *Case) (*World, error) {
 	if c.Universe && c.Decoy {
 		seen := map[string]bool{}
 		for _, gn := range c.GoType {
-			gn = strings.TrimPrefix(gn, "R")
+			gn = strings.TrimPrefix(strings.TrimPrefix(gn, "R"), "M")
 			if seen[gn] || gn == "UQuery" || gn == "Vee" || gn == "" {
 				continue
 			}
@@ -798,6 +800,9 @@ func NewWorld(c *Case) (*World, error) {
 		sort.Strings(keys)
 		for _, k := range keys {
 			parts := strings.SplitN(k, ".", 2)
+			if t, ok := universeTypes[c.GoType[parts[0]]]; ok && t.Kind() == reflect.Map {
+				continue // a map that resolves for itself has no members to name
+			}
 			goName := c.Rename[k]
 			var order []string
 			if i := strings.IndexByte(goName, '('); i >= 0 {
